@@ -72,7 +72,7 @@ func typeStrings(spec *schemahcl.TypeSpec) []string {
 	case has["precision"]:
 		base = append(base, spec.T+"(0)", spec.T+"(3)", spec.T+"(6)")
 	case has["size"]:
-		base = append(base, spec.T+"(1)", spec.T+"(255)")
+		base = append(base, spec.T+"(0)", spec.T+"(1)", spec.T+"(255)")
 	case has["len"]:
 		base = append(base, spec.T+"(1)", spec.T+"(8)")
 	}
@@ -529,8 +529,8 @@ func Run(r *report.Run) {
 				continue
 			}
 			for _, m := range members {
-				if !strings.HasPrefix(strings.ToLower(m), strings.ToLower(bare)+"(") {
-					continue
+				if !strings.HasPrefix(strings.ToLower(m), strings.ToLower(bare)+"(") || strings.HasSuffix(m, "(0)") {
+					continue // (a length of 0 is not a type the database accepts for these; nothing to tell apart)
 				}
 				r.CaseDistinct(true)
 				ncoll++
@@ -549,7 +549,6 @@ var unlimitedWhenBare = map[string]bool{
 	"postgres|numeric": true, "postgres|decimal": true,
 }
 
-var reTimeZero = regexp.MustCompile(`^(time|timetz|timestamp|timestamptz)\(0\)(\[\])?$`)
 
 // classify recognises listed findings by a predicate on the case and its symptoms.
 func classify(c Case, problems []string) string {
@@ -567,9 +566,6 @@ func classify(c Case, problems []string) string {
 	}
 	only := func(edit string) bool { return len(c.Edits) >= 1 && contains(c.Edits, edit) }
 	switch {
-	case c.Dialect == "postgres" && c.Kind == "type" && reTimeZero.MatchString(c.Type) &&
-		all("comes back from HCL as", "is not empty: [ModifyTable(tt)/ModifyColumn(x)[type]]", "changes the bytes"):
-		return "pg-time-precision-zero-dropped"
 	case c.Dialect == "postgres" && only("check_no_inherit") && all("ModifyCheck(ck_a)", "structure differs"):
 		return "pg-check-no-inherit-not-representable-in-hcl"
 	case c.Dialect == "mysql" && only("check_not_enforced") && all("ModifyCheck(ck_a)", "structure differs"):
